@@ -25,6 +25,7 @@ import (
 	"sync"
 	"time"
 
+	"github.com/cloudwego/hertz/pkg/common/hlog"
 	"github.com/cloudwego/hertz/pkg/protocol"
 
 	"verif/harness/vtrace"
@@ -524,6 +525,7 @@ func main() {
 	chunks := flag.Int("chunks", 16, "number of trace files")
 	flag.Int64Var(&seedFlag, "seed", 1, "seed of the random blocks")
 	flag.Parse()
+	hlog.SetLevel(hlog.LevelFatal) // Cookie.SetValue warns about every '"' (not a cookie-octet): thousands of log lines
 
 	f, err := os.Open(*cases)
 	if err != nil {
